@@ -17,7 +17,6 @@ package dmap
 import (
 	"context"
 	"errors"
-	"strings"
 	"sync"
 	"time"
 
@@ -91,7 +90,7 @@ func (f *fragment) Move(part *partitions.Partition, name string, owners []discov
 	fp := &fragmentPack{
 		PartID:  part.ID(),
 		Kind:    part.Kind(),
-		Name:    strings.TrimPrefix(name, "dmap."),
+		Name:    name, // the name of the DMap: the balancer has already removed the "dmap." prefix of the fragment's name
 		Payload: payload,
 	}
 	value, err := msgpack.Marshal(fp)
